@@ -283,4 +283,229 @@ Proof.
 Qed.
 End Axis.
 
+(* ================= horizontal recursion (hstep), abstract ================= *)
+Section HRR.
+Variable ab : F.
+(* H[b+1][a] = H[b][a+1] + AB H[b][a]   (_two_elec_int.py:567-790, _one_elec_int.py:181-199) *)
+Fixpoint Hf (T : nat -> F) (b : nat) (a : nat) : F :=
+  match b with O => T a | S b' => Hf T b' (S a) + ab * Hf T b' a end.
+
+(* binomial coefficients by Pascal's rule, computed in the field *)
+Fixpoint binF (n k : nat) : F :=
+  match n, k with
+  | _, O => 1
+  | O, S _ => 0
+  | S n', S k' => binF n' k' + binF n' (S k')
+  end.
+Lemma binF_n0 n : binF n 0 = 1. Proof. destruct n; reflexivity. Qed.
+Lemma binF_SS n k : binF (S n) (S k) = binF n k + binF n (S k). Proof. reflexivity. Qed.
+Lemma binF_gt n : forall k, n < k -> binF n k = 0.
+Proof. induction n as [|n IH]; intros k Hk; destruct k as [|k]; try lia; [reflexivity|].
+  rewrite binF_SS, !IH by lia. ring. Qed.
+Lemma binF_nn n : binF n n = 1.
+Proof. induction n as [|n IH]; [reflexivity|]. rewrite binF_SS, IH, binF_gt by lia. ring. Qed.
+
+Notation Sum := (sumn 0 (fadd K)).
+Lemma Sum_S n f : Sum (S n) f = Sum n f + f n. Proof. reflexivity. Qed.
+Lemma Sum_shift n f : Sum (S n) f = f 0%nat + Sum n (fun k => f (S k)).
+Proof. induction n as [|n IH]; [cbn [sumn]; ring|]. rewrite Sum_S, IH, Sum_S. ring. Qed.
+Lemma Sum_add n f g : Sum n f + Sum n g = Sum n (fun k => f k + g k).
+Proof. induction n as [|n IH]; cbn [sumn]; [ring|]. rewrite <- IH. ring. Qed.
+Lemma Sum_scale n c f : c * Sum n f = Sum n (fun k => c * f k).
+Proof. induction n as [|n IH]; cbn [sumn]; [ring|]. rewrite <- IH. ring. Qed.
+
+(* (x - B)^b = ((x - A) + AB)^b : the entry is the binomial combination of the [a+k | 0] entries *)
+Theorem hrr_binomial T : forall b a,
+  Hf T b a = Sum (S b) (fun k => binF b k * fpow K ab (b - k) * T (a + k)%nat).
+Proof.
+  induction b as [|b IH]; intros a.
+  - cbn [Hf sumn binF fpow Nat.sub]. rewrite Nat.add_0_r. ring.
+  - cbn [Hf]. rewrite (IH (S a)), (IH a).
+    (* second sum: peel k = 0; first sum: peel k = b; the rest is Pascal's rule *)
+    rewrite (Sum_shift (S b) (fun k => binF (S b) k * fpow K ab (S b - k) * T (a + k)%nat)).
+    rewrite (Sum_S b (fun k => binF b k * fpow K ab (b - k) * T (S a + k)%nat)).
+    rewrite (Sum_shift b (fun k => binF b k * fpow K ab (b - k) * T (a + k)%nat)).
+    rewrite (Sum_S b (fun k => binF (S b) (S k) * fpow K ab (S b - S k) * T (a + S k)%nat)).
+    rewrite !binF_n0, binF_nn, Nat.sub_diag, Nat.add_0_r, !Nat.sub_0_r.
+    replace (a + S b)%nat with (S a + b)%nat by lia.
+    replace (S b - S b)%nat with 0%nat by lia.
+    assert (E : Sum b (fun k => binF (S b) (S k) * fpow K ab (S b - S k) * T (a + S k)%nat)
+              = Sum b (fun k => binF b k * fpow K ab (b - k) * T (S a + k)%nat)
+                + ab * Sum b (fun k => binF b (S k) * fpow K ab (b - S k) * T (a + S k)%nat)).
+    { rewrite Sum_scale, Sum_add. apply sumn_ext. intros k Hk.
+      rewrite binF_SS. replace (a + S k)%nat with (S a + k)%nat by lia.
+      replace (S b - S k)%nat with (b - k)%nat by lia.
+      replace (b - k)%nat with (S (b - S k)) by lia. cbn [fpow]. ring. }
+    rewrite E. rewrite binF_SS, binF_nn, binF_gt by lia. cbn [fpow]. ring.
+Qed.
+End HRR.
+
 End Abstract.
+
+(* ======================= the tables of the model ======================= *)
+Section Lists.
+Context {F : Type} (K : Fops F) (Kf : is_field K).
+Add Field KFtl : Kf.
+Local Open Scope F_scope.
+Notation "0" := (f0 K) : F_scope.
+Notation "1" := (f1 K) : F_scope.
+Infix "+" := (fadd K) : F_scope.
+Infix "*" := (fmul K) : F_scope.
+Infix "-" := (fsub K) : F_scope.
+Infix "/" := (fdiv K) : F_scope.
+Notation "- x" := (fopp K x) : F_scope.
+Notation "# n" := (ofnat K n) (at level 5) : F_scope.
+
+Lemma zip2_cons {A B C} (f : A -> B -> C) a x b y : zip2 f (a :: x) (b :: y) = f a b :: zip2 f x y.
+Proof. reflexivity. Qed.
+Lemma zip2_length {A B C} (f : A -> B -> C) x y : length (zip2 f x y) = Nat.min (length x) (length y).
+Proof. unfold zip2. now rewrite map_length, combine_length. Qed.
+Lemma nth_zip2 {A B C} (f : A -> B -> C) x y i d dx dy :
+  i < length x -> i < length y -> nth i (zip2 f x y) d = f (nth i x dx) (nth i y dy).
+Proof.
+  revert y i. induction x as [|a x IH]; intros [|b y] i Hx Hy; cbn [length] in *; try lia.
+  rewrite zip2_cons. destruct i as [|i]; cbn [nth]; [reflexivity|]. apply IH; lia.
+Qed.
+
+(* ---- vertical pass: entry (a, m, channel) inside m + a <= L ---- *)
+Section VPassList.
+Variables (L n : nat) (pa pcw twop w : F) (v0 : list (list F)).
+Hypothesis Hlen0 : forall m, m <= L -> length (nth m v0 []) = n.
+Definition chan (ch : nat) : nat -> F := fun m => nth ch (nth m v0 []) 0.
+
+Definition Pv (a : nat) (tab : list (list F)) : Prop :=
+  (forall m, m <= L -> length (nth m tab []) = n) /\
+  (forall m ch, m + a <= L -> ch < n ->
+     nth ch (nth m tab []) 0 = Vf2 K pa pcw (1 / twop) w (chan ch) a m).
+
+Lemma vstep2_inv j x y : Pv j x -> (0 < j -> Pv (j - 1) y) ->
+  Pv (S j) (vstep2 K L pa pcw twop w j x y).
+Proof.
+  intros [Lx Ex] Hy. split.
+  - intros m Hm. unfold vstep2. rewrite nth_mk by lia.
+    destruct (Nat.eqb_spec m L) as [E|NE]; [rewrite map_length; now apply Lx|].
+    destruct j as [|j].
+    + rewrite zip2_length, !Lx by lia. apply Nat.min_id.
+    + destruct (Hy ltac:(lia)) as [Ly _].
+      rewrite !zip2_length, !Lx, !Ly by lia. rewrite !Nat.min_id. reflexivity.
+  - intros m ch Hm Hch. unfold vstep2. rewrite nth_mk by lia.
+    destruct (Nat.eqb_spec m L) as [E|NE]; [lia|].
+    destruct j as [|j].
+    + rewrite (nth_zip2 _ _ _ _ _ 0 0) by (rewrite Lx; lia).
+      rewrite !Ex by lia. rewrite Vf2_1, !Vf2_0. reflexivity.
+    + destruct (Hy ltac:(lia)) as [Ly Ey]. replace (S j - 1)%nat with j in * by lia.
+      rewrite (nth_zip2 _ _ _ _ _ 0 0)
+        by (rewrite ?zip2_length, ?Lx, ?Ly, ?Nat.min_id; lia).
+      rewrite (nth_zip2 _ _ _ _ _ 0 0) by (rewrite Lx; lia).
+      rewrite (nth_zip2 _ _ _ _ _ 0 0) by (rewrite Ly; lia).
+      rewrite !Ex, !Ey by lia. cbv beta. rewrite Vf2_SS, (div_as_mul K Kf (#(S j))). ring.
+Qed.
+
+(* _two_elec_int.py:346-399: inside the validity region the table holds the abstract recursion *)
+Theorem vpass2_entry a m ch : m + a <= L -> ch < n ->
+  nth ch (nth m (nth a (vpass2 K L pa pcw twop w v0) []) []) 0
+  = Vf2 K pa pcw (1 / twop) w (chan ch) a m.
+Proof.
+  intros Hm Hch. unfold vpass2.
+  assert (G : Pv (0 + a) (nth a (iter2 (vstep2 K L pa pcw twop w) L 0 v0 []) [])).
+  { apply (iter2_spec (vstep2 K L pa pcw twop w) Pv); [| | |lia].
+    - intros j x y. apply vstep2_inv.
+    - split; [exact Hlen0|]. intros m' ch' _ _. reflexivity.
+    - intros Hlt. lia. }
+  destruct G as [_ G]. apply G; [exact Hm|exact Hch].
+Qed.
+End VPassList.
+
+(* ---- cubes ---- *)
+Lemma cget_mk3 (L : nat) (f : nat -> nat -> nat -> F) x y z : x <= L -> y <= L -> z <= L ->
+  cget K (mk (S L) (fun x => mk (S L) (fun y => mk (S L) (fun z => f x y z)))) x y z = f x y z.
+Proof. intros Hx Hy Hz. unfold cget. rewrite nth_mk by lia. rewrite nth_mk by lia.
+  rewrite nth_mk by lia. reflexivity. Qed.
+
+(* index along the axis, and the line of the cube through (x, y, z) along the axis *)
+Definition idx (axis x y z : nat) : nat := match axis with O => x | S O => y | _ => z end.
+Definition line (axis : nat) (t : @cube F) (x y z : nat) : nat -> F :=
+  fun a => match axis with O => cget K t a y z | S O => cget K t x a z | _ => cget K t x y a end.
+
+(* ---- electron transfer pass: entry (c; x y z) inside idx + c <= L ---- *)
+Section TPassList.
+Variables (L Lc axis : nat) (coef twoq r : F) (t : @cube F).
+
+Definition Pt (c : nat) (cu : @cube F) : Prop :=
+  forall x y z, x <= L -> y <= L -> z <= L -> idx axis x y z + c <= L ->
+    cget K cu x y z = ETf K coef twoq r (line axis t x y z) c (idx axis x y z).
+
+Lemma tstep_inv c cur prev : Pt c cur -> (0 < c -> Pt (c - 1) prev) ->
+  Pt (S c) (tstep K L axis coef twoq r c cur prev).
+Proof.
+  unfold Pt. intros Hc Hp x y z Hx Hy Hz Hi. unfold tstep. rewrite cget_mk3 by assumption.
+  fold (idx axis x y z).
+  destruct (Nat.eqb_spec (idx axis x y z) L) as [E|NE]; [lia|].
+  rewrite (ETf_S K Kf).
+  assert (Eprev : #c / twoq * cget K prev x y z
+                  = #c / twoq * ETf K coef twoq r (line axis t x y z) (c - 1) (idx axis x y z)).
+  { destruct c as [|c]; [cbn [ofnat]; rewrite (div_as_mul K Kf 0); ring|].
+    rewrite (Hp ltac:(lia) x y z) by (assumption || lia). reflexivity. }
+  rewrite Eprev. rewrite (Hc x y z) by (assumption || lia).
+  destruct axis as [|[|ax]]; cbn [idx line] in *.
+  - rewrite (Hc (S x) y z), (Hc (x - 1)%nat y z) by (cbn [idx]; lia). reflexivity.
+  - rewrite (Hc x (S y) z), (Hc x (y - 1)%nat z) by (cbn [idx]; lia). reflexivity.
+  - rewrite (Hc x y (S z)), (Hc x y (z - 1)%nat) by (cbn [idx]; lia). reflexivity.
+Qed.
+
+(* _two_elec_int.py:413-526: the column a = L is never written, so the table holds the abstract
+   transfer recursion exactly on idx + c <= L *)
+Theorem tpass_entry c x y z : c <= Lc -> x <= L -> y <= L -> z <= L -> idx axis x y z + c <= L ->
+  cget K (nth c (tpass K L Lc axis coef twoq r t) []) x y z
+  = ETf K coef twoq r (line axis t x y z) c (idx axis x y z).
+Proof.
+  intros Hc Hx Hy Hz Hi. unfold tpass.
+  assert (G : Pt (0 + c) (nth c (iter2 (tstep K L axis coef twoq r) Lc 0 t []) [])).
+  { apply (iter2_spec (tstep K L axis coef twoq r) Pt); [| | |exact Hc].
+    - intros j cu pv. apply tstep_inv.
+    - intros x' y' z' _ _ _ _. rewrite (ETf_0 K). destruct axis as [|[|ax]]; reflexivity.
+    - intros Hlt. lia. }
+  apply G; assumption.
+Qed.
+End TPassList.
+
+(* ---- horizontal transfer: entry (b; x y z) inside idx + b <= L ---- *)
+Section HIterList.
+Variables (L axis : nat) (ab : F) (t0 : @cube F).
+
+Definition Ph (k : nat) (cu : @cube F) : Prop :=
+  forall x y z, x <= L -> y <= L -> z <= L -> idx axis x y z + k <= L ->
+    cget K cu x y z = Hf K ab (line axis t0 x y z) k (idx axis x y z).
+
+Lemma hstep_inv k cu : Ph k cu -> Ph (S k) (hstep K L axis ab cu).
+Proof.
+  unfold Ph. intros Hc x y z Hx Hy Hz Hi. unfold hstep. rewrite cget_mk3 by assumption.
+  fold (idx axis x y z).
+  destruct (Nat.eqb_spec (idx axis x y z) L) as [E|NE]; [lia|].
+  cbn [Hf]. rewrite (Hc x y z) by (assumption || lia).
+  destruct axis as [|[|ax]]; cbn [idx line] in *.
+  - rewrite (Hc (S x) y z) by (cbn [idx]; lia). reflexivity.
+  - rewrite (Hc x (S y) z) by (cbn [idx]; lia). reflexivity.
+  - rewrite (Hc x y (S z)) by (cbn [idx]; lia). reflexivity.
+Qed.
+
+Lemma hiter_inv : forall n cu k, Ph k cu -> forall b, b <= n ->
+  Ph (k + b) (nth b (hiter K L axis ab n cu) []).
+Proof.
+  induction n as [|n IH]; intros cu k Hk b Hb.
+  - assert (b = 0%nat) by lia. subst b. cbn [hiter nth]. now rewrite Nat.add_0_r.
+  - destruct b as [|b]; cbn [hiter nth]; [now rewrite Nat.add_0_r|].
+    replace (k + S b)%nat with (S k + b)%nat by lia. apply IH; [|lia]. now apply hstep_inv.
+Qed.
+
+Theorem hiter_entry n b x y z : b <= n -> x <= L -> y <= L -> z <= L -> idx axis x y z + b <= L ->
+  cget K (nth b (hiter K L axis ab n t0) []) x y z
+  = Hf K ab (line axis t0 x y z) b (idx axis x y z).
+Proof.
+  intros Hb Hx Hy Hz Hi.
+  apply (hiter_inv n t0 0%nat); [|exact Hb|assumption..].
+  intros x' y' z' _ _ _ _. destruct axis as [|[|ax]]; reflexivity.
+Qed.
+End HIterList.
+
+End Lists.
